@@ -351,6 +351,22 @@ Section Cluster.
       apply filter_In in Hin. apply Hin.
   Qed.
 
+  (* every [update] the loop issues hits a queued (Gray) element and does not worsen its key
+     in the max direction: exactly the precondition of [update_gray_spec] (C05) *)
+  Lemma heap_use_valid rem h g lc q c :
+    CInv rem h g lc -> q < n -> is_blackk h q = false -> Z.ltb (hcostk top h q) c = true ->
+    In q (queued h) /\ better Z.ltb (hpol h) (cost top h q) c = false.
+  Proof.
+    intros HC Hq Hblk Hlt.
+    assert (Hqr : ~ In q rem).
+    { intros Hin. pose proof (ci_black _ _ _ _ HC q Hin) as Hb.
+      unfold is_blackk in Hblk. unfold col in Hb. rewrite Hb in Hblk. discriminate. }
+    split.
+    - apply (inv_color h (ci_inv _ _ _ _ HC) q); [rewrite (ci_size _ _ _ _ HC); exact Hq|].
+      apply (ci_gray _ _ _ _ HC q Hq Hqr).
+    - rewrite (ci_pol _ _ _ _ HC). cbn [better]. unfold cost. unfold hcostk in Hlt. lia.
+  Qed.
+
   Lemma relax_fold rem lc p : In p rem -> forall l st,
     (forall q, In q l -> q < n /\ In q (nbrs g0 p)) ->
     CI rem st lc -> CI rem (fold_left (cl_relax Z.ltb zero top bot sup force p) l st) lc.
@@ -547,6 +563,10 @@ Section Cluster.
       + rewrite app_length. cbn [length]. lia.
   Qed.
 
+  (* the loop stops because the heap is empty, not because the fuel [n] ran out *)
+  Corollary loop_heap_empty rem h g lc : CInv rem h g lc -> length rem = n -> hn h = 0.
+  Proof. intros HC Hl. pose proof (ci_hn _ _ _ _ HC). lia. Qed.
+
   (* ---------------- the result of [cl_run] ---------------- *)
 
   Definition result : knn * nat := cl_run Z.ltb zero top bot sup force nbrs n g0.
@@ -726,3 +746,91 @@ Section Consequences.
       rewrite (C Hs). apply (Hroots r Hr Hpr).
     Qed.
 End Consequences.
+
+(* ---------------- the generic statements, for any [nbrs] ---------------- *)
+
+Section Generic.
+  Variables (zero top bot : Z) (n : nat) (sup force : bool).
+  Variable nbrs : @knn Z -> nat -> list nat.
+  Variable g0 : @knn Z.
+  Hypothesis Hnb_frame : forall (g g' : @knn Z) p,
+    k_adj g' = k_adj g -> k_nplat g' = k_nplat g -> nbrs g' p = nbrs g p.
+  Hypothesis Hnb_lt : forall p q, p < n -> In q (nbrs g0 p) -> q < n.
+  Hypothesis Hl_cost : length (k_cost g0) = n.
+  Hypothesis Hl_pred : length (k_pred g0) = n.
+  Hypothesis Hl_root : length (k_root g0) = n.
+  Hypothesis Hl_plabel : length (k_plabel g0) = n.
+  Hypothesis Hl_clabel : length (k_clabel g0) = n.
+  Hypothesis Hc0 : forall i, i < n -> (cost0 zero g0 i < dens zero g0 i)%Z.
+  Hypothesis Hbot : force = true -> forall i, i < n -> (bot < cost0 zero g0 i)%Z.
+
+  Let g' := fst (cl_run Z.ltb zero top bot sup force nbrs n g0).
+  Let l := snd (cl_run Z.ltb zero top bot sup force nbrs n g0).
+
+  Lemma generic_final : exists ord, Final zero n sup force nbrs g0 ord g' l.
+  Proof. apply (run_final zero top bot n sup force nbrs g0); assumption. Qed.
+
+  Theorem cluster_order : exists ord, k_order g' = k_order g0 ++ ord /\ Permutation ord (seq 0 n).
+  Proof.
+    destruct generic_final as [ord HF]. exists ord.
+    split; [apply (fi_order _ _ _ _ _ _ _ _ _ HF)|apply (fi_perm _ _ _ _ _ _ _ _ _ HF)].
+  Qed.
+
+  Theorem cluster_links : exists ord, Permutation ord (seq 0 n) /\
+    forall q, q < n ->
+      match predf g' q with
+      | None => rootf g' q = q /\ costf zero g' q = dens zero g0 q /\
+                (sup = true -> plab g' q = lab g0 q)
+      | Some p => p < n /\ before ord p q /\ In q (nbrs g0 p) /\ rootf g' q = rootf g' p /\
+                  costf zero g' q = Z.min (costf zero g' p) (dens zero g0 q) /\
+                  (cost0 zero g0 q < costf zero g' q)%Z /\
+                  (sup = true -> plab g' q = plab g' p) /\
+                  (sup = false -> clab g' q = clab g' p) /\
+                  (force = true -> lab g0 p = lab g0 q)
+      end.
+  Proof.
+    destruct generic_final as [ord HF]. exists ord.
+    split; [apply (fi_perm _ _ _ _ _ _ _ _ _ HF)|].
+    intros q Hq. destruct (predf g' q) as [p|] eqn:Hp.
+    - apply (fi_link _ _ _ _ _ _ _ _ _ HF q p Hq Hp).
+    - apply (fi_root _ _ _ _ _ _ _ _ _ HF q Hq Hp).
+  Qed.
+
+  Theorem cluster_forest : forall q, q < n ->
+    exists r k, k < n /\ r < n /\ reaches (predf g') q r k /\ predf g' r = None /\
+      (forall r', root_of (predf g') q r' -> r' = r) /\
+      rootf g' q = r /\ (costf zero g' q <= costf zero g' r)%Z /\
+      costf zero g' r = dens zero g0 r /\ (cost0 zero g0 q < dens zero g0 r)%Z /\
+      (sup = true -> plab g' q = plab g' r /\ plab g' r = lab g0 r) /\
+      (sup = false -> clab g' q = clab g' r) /\
+      (force = true -> lab g0 q = lab g0 r).
+  Proof.
+    destruct generic_final as [ord HF].
+    apply (final_forest zero n sup force nbrs g0 ord g' l HF Hc0).
+  Qed.
+
+  Theorem cluster_density_gap :
+    (forall q, q < n -> cost0 zero g0 q = (dens zero g0 q - 1)%Z) ->
+    forall q, q < n -> (dens zero g0 q < dens zero g0 (rootf g' q) + 1)%Z.
+  Proof.
+    destruct generic_final as [ord HF].
+    apply (final_density_gap zero n sup force nbrs g0 ord g' l HF Hc0).
+  Qed.
+
+  Theorem cluster_ids : sup = false ->
+    l = length (filter (isroot g') (seq 0 n)) /\
+    exists ord, k_order g' = k_order g0 ++ ord /\ Permutation ord (seq 0 n) /\
+      l = length (filter (isroot g') ord) /\
+      (forall i, i < l -> clab g' (nth i (filter (isroot g') ord) 0) = i) /\
+      (forall r, r < n -> predf g' r = None ->
+         clab g' r < l /\ nth (clab g' r) (filter (isroot g') ord) 0 = r) /\
+      (forall q, q < n -> clab g' q < l).
+  Proof.
+    intros Hs. destruct generic_final as [ord HF].
+    destruct (final_ids zero n sup force nbrs g0 ord g' l HF Hc0 Hs) as (A & B & C & D & E).
+    split; [exact B|]. exists ord.
+    split; [apply (fi_order _ _ _ _ _ _ _ _ _ HF)|].
+    split; [apply (fi_perm _ _ _ _ _ _ _ _ _ HF)|].
+    split; [exact A|]. split; [exact C|]. split; [exact D|exact E].
+  Qed.
+End Generic.
